@@ -31,7 +31,7 @@ try:
         open(path, "w").write(src.replace(m["old"], m["new"]))
         try:
             for chk in m["checks"]:
-                env = dict(os.environ, VERIF_REPO=wt, VERIF_NO_RECHECK="1")
+                env = dict(os.environ, VERIF_REPO=wt, VERIF_NO_RECHECK="1", VERIF_REPLAY_DIR=os.path.join(scratch, "replays"))
                 p = subprocess.run([os.path.join(VERIF, "check"), chk, "--count", str(m.get("count", 600)),
                                     "--no-evidence", "--no-minimise", "--seed", str(m.get("seed", 0))],
                                    capture_output=True, text=True, env=env, timeout=1800)
